@@ -38,6 +38,7 @@ theorem step_exs_length_other (c : Conn α) (l : Label α) (hl : l.opens = false
         · split <;> simp [emit]
         · rfl
   | «end» => rfl
+  | evict _ _ => rfl
 
 /-! ### POST -/
 
@@ -170,12 +171,12 @@ theorem get_new {c : Conn α} (hw : Inv c) (h8 : Inv08 c) (hst : c.cfg.hasStore 
     (hsc : InScope c (.get hdr ver budget)) :
     (get c hdr ver budget).exs.length = c.exs.length + 1 ∧ (get c hdr ver budget).store = c.store ∧
     ∀ e, (get c hdr ver budget).exs[c.exs.length]? = some e → e.live →
-      e.stream = hdr.sid ∧ e.from = hdr.from ∧
+      e.stream = hdr.sid ∧ e.from = hdr.from ∧ ¬ hdr.from < c.purged hdr.sid ∧
       (idCount e.lost = 0 → e.from ≤ ((c.store e.stream).getD []).length →
         e.from + idCount e.out = ((c.store e.stream).getD []).length) := by
   have hstatus : ∀ code, (statusEx c code).exs.length = c.exs.length + 1 ∧ (statusEx c code).store = c.store ∧
       ∀ e, (statusEx c code).exs[c.exs.length]? = some e → e.live →
-        e.stream = hdr.sid ∧ e.from = hdr.from ∧
+        e.stream = hdr.sid ∧ e.from = hdr.from ∧ ¬ hdr.from < c.purged hdr.sid ∧
         (idCount e.lost = 0 → e.from ≤ ((c.store e.stream).getD []).length →
           e.from + idCount e.out = ((c.store e.stream).getD []).length) := by
     intro code
@@ -193,45 +194,39 @@ theorem get_new {c : Conn α} (hw : Inv c) (h8 : Inv08 c) (hst : c.cfg.hasStore 
       · split
         · exact hstatus _
         · rename_i items hitems
-          simp only [replayItems, hst, if_true] at hitems
-          split at hitems
-          · cases hitems
-          · cases hlog : c.store hdr.sid with
-            | none => rw [hlog] at hitems; cases hitems
-            | some log =>
-              rw [hlog] at hitems; simp at hitems; subst hitems
-              have hnn : ∀ i, hdr.from ≤ i → log[i]? ≠ some none := by
-                cases hdr with
-                | none =>
-                  intro i _ hi
-                  exact (h8.shape 0 log i hlog hi).2 rfl
-                | bad => exact absurd rfl ‹_›
-                | ok sid idx =>
-                  intro i hi hn
-                  have := (h8.shape sid log i hlog hn).1
-                  simp [Hdr.from] at hi; omega
-              obtain ⟨hlen, hnew⟩ := getGo_new c hdr.sid hdr.from ver budget (toReplay log hdr.from)
-              have hstore : (getGo c hdr.sid hdr.from ver budget (toReplay log hdr.from)).store = c.store := by
-                have h1 := (getOpen_frame c hdr.sid hdr.from budget).2.1
-                have h2 := (replayLoop_frame (getOpen c hdr.sid hdr.from budget) c.exs.length hdr.sid hdr.from (toReplay log hdr.from)).2.1
-                unfold getGo
-                split
+          obtain ⟨_, log, hlog, hnp, rfl⟩ := replayItems_some hst hitems
+          · have hnn : ∀ i, hdr.from ≤ i → log[i]? ≠ some none := by
+              cases hdr with
+              | none =>
+                intro i _ hi
+                exact (h8.shape 0 log i hlog hi).2 rfl
+              | bad => exact absurd rfl ‹_›
+              | ok sid idx =>
+                intro i hi hn
+                have := (h8.shape sid log i hlog hn).1
+                simp [Hdr.from] at hi; omega
+            obtain ⟨hlen, hnew⟩ := getGo_new c hdr.sid hdr.from ver budget (toReplay log hdr.from)
+            have hstore : (getGo c hdr.sid hdr.from ver budget (toReplay log hdr.from)).store = c.store := by
+              have h1 := (getOpen_frame c hdr.sid hdr.from budget).2.1
+              have h2 := (replayLoop_frame (getOpen c hdr.sid hdr.from budget) c.exs.length hdr.sid hdr.from (toReplay log hdr.from)).2.1
+              unfold getGo
+              split
+              · split
+                · simp [finish, h1, h2]
                 · split
                   · simp [finish, h1, h2]
-                  · split
-                    · simp [finish, h1, h2]
-                    · unfold attach; split <;> simp [cut, finish, h1, h2]
-                · simp [finish, h1, h2]
-              refine ⟨hlen, hstore, ?_⟩
-              intro e he _
-              obtain ⟨hs, hf, _, hc⟩ := hnew e he
-              refine ⟨hs, hf, ?_⟩
-              intro hl hle
-              rw [hs, hlog] at hle ⊢
-              simp only [Option.getD_some] at hle ⊢
-              rw [hc hl, toReplay_length log hdr.from hnn, hf]
-              rw [hf] at hle
-              omega
+                  · unfold attach; split <;> simp [cut, finish, h1, h2]
+              · simp [finish, h1, h2]
+            refine ⟨hlen, hstore, ?_⟩
+            intro e he _
+            obtain ⟨hs, hf, _, hc⟩ := hnew e he
+            refine ⟨hs, hf, hnp, ?_⟩
+            intro hl hle
+            rw [hs, hlog] at hle ⊢
+            simp only [Option.getD_some] at hle ⊢
+            rw [hc hl, toReplay_length log hdr.from hnn, hf]
+            rw [hf] at hle
+            omega
 
 /-! ### every label -/
 
@@ -259,27 +254,34 @@ theorem recFacts_step {c : Conn α} (hw : Inv c) (h8 : Inv08 c) (hst : c.cfg.has
     have hog : originOfLabel l = .other := by
       cases l <;> first | rfl | cases hop
     rw [hog]
-    exact ⟨by omega, rfl, fun e he _ => (by rw [hnone] at he; cases he), fun h => (by cases h)⟩
+    exact ⟨by omega, rfl, fun e he _ => (by rw [hnone] at he; cases he), fun h => (by cases h), fun h => (by cases h)⟩
   · cases l with
     | post calls listen ver budget =>
       obtain ⟨hlen, hnew⟩ := post_new c calls listen ver budget
-      refine ⟨by show (post c calls listen ver budget).exs.length ≤ _; omega, hsc.1, ?_, fun h => by cases h⟩
+      refine ⟨by show (post c calls listen ver budget).exs.length ≤ _; omega, hsc.1, ?_, fun h => (by cases h), fun h => (by cases h)⟩
       intro e he _
       exact ⟨hnew e he, fun t ht => by cases ht⟩
     | get hdr ver budget =>
       obtain ⟨hlen, hstore, hnew⟩ := get_new hw h8 hst hdr ver budget hsc.1
-      refine ⟨by show (get c hdr ver budget).exs.length ≤ _; omega, hsc.2, ?_, ?_⟩
+      refine ⟨by show (get c hdr ver budget).exs.length ≤ _; omega, hsc.2, ?_, ?_, ?_⟩
       · intro e he hl
         obtain ⟨hs, hf, _⟩ := hnew e he hl
         exact ⟨by rw [hf]; exact (obsHdr_from hdr _).symm, fun t ht => by rw [hs]; exact obsHdr_stream hdr _ t ht⟩
       · intro _ e he hk hl hle
         have hstore' : (step c (.get hdr ver budget)).store = c.store := hstore
         rw [hstore'] at hle ⊢
-        exact (hnew e he (Or.inl hk)).2.2 hl hle
+        exact (hnew e he (Or.inl hk)).2.2.2 hl hle
+      · intro _ e he hk t ht
+        have hnp := (hnew e he (Or.inl hk)).2.2.1
+        show ¬ (Origin.get (obsHdr hdr) ver.isNew).from < c.purged t
+        rw [obsHdr_from]
+        have := obsHdr_stream hdr _ t ht
+        rw [this]; exact hnp
     | write _ _ _ => exact absurd rfl hop
     | cut _ => exact absurd rfl hop
     | wfail _ => exact absurd rfl hop
     | sclose _ _ => exact absurd rfl hop
     | «end» => exact absurd rfl hop
+    | evict _ _ => exact absurd rfl hop
 
 end Resume
